@@ -205,6 +205,9 @@ def scripted(n, t, nv, seed, p, moves, tag):
         if m[0] == "Fault":
             steps.append(dict(m[1], ev="Fault"))
             continue
+        if m[0] == "Pause":
+            steps.append({"ev": "Pause", "ms": m[1]})
+            continue
         if m not in sim.enabled():
             raise vlib.Infra("scripted schedule %s: move %s is not enabled" % (tag, m))
         sim.apply(m)
@@ -245,6 +248,29 @@ def shape_round2(n, t, nv, seed, X, P, Q):
     mv += [("RD", P, X, "c1"), ("RD", P, X, "c2"), ("D2", Q, X)]
     mv += [("Ret2", 0, j) for j in N]
     return scripted(n, t, nv, seed, 11, mv, "shape2_%d%d%d" % (X, P, Q))
+
+
+def shape_slow(n, t, nv, seed, X, Q, ms, rnd):
+    """a SLOW peer: everything else has arrived, X sits in its round-`rnd` receive step and Q's cast of that round only comes
+    `ms` milliseconds (real time: mode cb runs the real frostP2P on the wall clock) later.  Time is not part of the ceremony's
+    contract: however long a peer takes, a node that finishes finishes with the casts of ALL its peers."""
+    N = list(range(1, n + 1))
+    mv = [("Start", i, 0) for i in N]
+    if rnd == 1:
+        mv += [("D1C", i, j) for i in N for j in N if i != j and (i, j) != (Q, X)]
+        mv += [("D1P", i, j) for i in N for j in N if i != j]
+        mv += [("Pause", ms), ("D1C", Q, X)]
+    else:
+        mv += [("D1C", i, j) for i in N for j in N if i != j]
+        mv += [("D1P", i, j) for i in N for j in N if i != j]
+    mv += [("Ret1", 0, j) for j in N]
+    if rnd == 2:
+        mv += [("D2", i, j) for i in N for j in N if i != j and (i, j) != (Q, X)]
+        mv += [("Pause", ms), ("D2", Q, X)]
+    else:
+        mv += [("D2", i, j) for i in N for j in N if i != j]
+    mv += [("Ret2", 0, j) for j in N]
+    return scripted(n, t, nv, seed, 11, mv, "slow%d_%d%d_%d" % (rnd, X, Q, ms))
 
 
 def draw_fault(r, n, i=None, rnd=None, what=None, err=None):
@@ -308,6 +334,11 @@ def cb_schedules(seed, thorough):
         out.append(shape_round1(4, 3, 2, seed, X, P, Q))
         out.append(shape_round2(4, 3, 2, seed, X, P, Q))
     out.append(shape_round1(3, 2, 1, seed, 3, 1, 2))
+    # slow peers (real seconds): one in the quick tier, the usual time-out magnitudes in the thorough tier
+    X, Q = r.sample([1, 2, 3, 4], 2)
+    out.append(shape_slow(4, 3, 2, seed, X, Q, 10500, 2))
+    if thorough:
+        out += [shape_slow(4, 3, 1, seed, Q, X, 10500, 1), shape_slow(3, 2, 2, seed, 1, 3, 31000, 2), shape_slow(4, 3, 1, seed, X, Q, 61000, 2)]
     for k in range(60 if thorough else 8):
         n = r.randint(3, 6 if thorough else 5)
         out.append(ceremony(r, n, r.choice([2, n, r.randint(2, n)]), r.choice([1, 2, 3]), KINDS[k % len(KINDS)], seed,
